@@ -56,14 +56,27 @@ def run_case(ctx, inp):
         return {"impl": rev_corr.canon_cmd(impl), "model": rev_corr.canon_cmd(model)}, impl
     vdb = rev_impl.VersionDb()
     try:
+        n_live = len(inp["revs"])
+        if inp.get("loadedFirst") is not None:
+            # the map was loaded with the first revisions only and grew in place between the commands
+            n_live = inp["loadedFirst"]
+            sd, _ = rev_impl.load(inp["revs"][:n_live])
         # commands that ran earlier on the same ScriptDirectory object
-        for rows0, cmd0, tgt0 in inp.get("prior", []):
+        for p0 in inp.get("prior", []):
+            rows0, cmd0, tgt0 = p0[0], p0[1], p0[2]
+            while len(p0) > 3 and n_live < p0[3]:
+                rev_corr.grow(sd, inp["revs"][n_live])
+                n_live += 1
             rev_impl.command(sd, vdb, rows0, cmd0, tuple(tgt0) if isinstance(tgt0, list) else tgt0)
+        while n_live < len(inp["revs"]):
+            rev_corr.grow(sd, inp["revs"][n_live])
+            n_live += 1
         tgt = inp.get("target", inp.get("targets"))
         impl = rev_impl.command(sd, vdb, inp["rows"], inp["cmd"], tgt)
     finally:
         vdb.close()
-    model = ctx.drv.ask1({"op": "rev.cmd", **{k: v for k, v in inp.items() if k != "prior"}, "normOrder": info["normOrder"]})
+    model = ctx.drv.ask1({"op": "rev.cmd", **{k: v for k, v in inp.items() if k not in ("prior", "loadedFirst")},
+                          "normOrder": rev_corr.live_norm_order(sd, inp["revs"])})
     return {"impl": rev_corr.canon_cmd(impl), "model": rev_corr.canon_cmd(model)}, impl
 
 
